@@ -148,6 +148,11 @@ type Cfg struct {
 	ForkAt     int    `json:"forkAt"`
 	IDFunc     string `json:"idfunc"` // "cert" | "index"
 	Mode       string `json:"mode"`   // "run" (Controller.Run) | "master" (RunWhenMaster, scripted election) | "noop" (RunWhenMaster, election2.NoopFactory)
+	// Lag is the signer's schedule (specification: cfg.lag, SignerAwake): the destination queues what AddSequencedLeaves
+	// brings, its signed root moves only when the signer integrates - and the signer sleeps until the migrator has asked
+	// for the root more than Lag times (0: it works whenever the environment lets it).  Replayed behaviours carry the
+	// root sizes themselves (Faults.RootAt), which says the same thing pass by pass.
+	Lag int `json:"lag"`
 }
 
 // inRange: index i belongs to the job the configuration describes (specification: InRange).
@@ -292,13 +297,26 @@ type World struct {
 	endBeyond    int // one-shot passes whose explicit end_index lay beyond the STH while the source served entries beyond that STH
 	rangePasses  int // passes run under a non-default range configuration
 	kinds        map[string]bool
+
+	// one run of the controller (Controller.Run from its start: the specification's ghost subm).  The harness cannot see
+	// Run being called again, but it knows every reason for which a pass may fail (it injects them): a pass that saw none
+	// of them succeeded, and Run went on to the next round with its position.
+	subm       map[int64]bool // indices submitted with an OK answer in this run
+	runDirty   bool           // a reason to end the run has occurred: the next root request belongs to a new run
+	runPos     int            // the position the rounds of this run have reached (largest STH of a pass that saw no such reason)
+	lagRounds  int            // rounds started with the root behind the run's position and the source grown beyond it
+	lagEntries int            // entries the signer had not integrated when such a round started
+	repeats    int
+	lastRoot   time.Time // virtual time of the last root request
+	spin       int       // root requests in a row without any virtual time passing
 }
 
 // NewWorld creates the scenario.
 func NewWorld(p *Pool, c Cfg, f Faults, rec *vh.Recorder, rep *vh.Report, t int) *World {
 	f.init()
 	w := &World{P: p, C: c, F: f, F0: cloneFaults(f), Rec: rec, Rep: rep, T: t, srcSize: c.Src0, dest: map[int64]*stored{}, destInt: c.DestInt,
-		master: true, mwait: make(chan struct{}), sthSize: -1, quotaOpen: map[string]int{}, quotaAt: map[string]time.Time{}, kinds: map[string]bool{}}
+		master: true, mwait: make(chan struct{}), sthSize: -1, quotaOpen: map[string]int{}, quotaAt: map[string]time.Time{}, kinds: map[string]bool{},
+		subm: map[int64]bool{}}
 	close(w.mwait)
 	for i := 0; i < c.DestLen; i++ {
 		e := w.entry("H", i)
@@ -408,12 +426,11 @@ func (w *World) envLocked(a string) {
 			w.emit(map[string]any{"ev": "Grow", "size": w.srcSize})
 		}
 	case "integrate":
-		if c := w.contiguous(); w.destInt < c {
-			w.destInt++
-			w.emit(map[string]any{"ev": "Integrate", "size": w.destInt})
+		if w.signerAwake() {
+			w.integrateOne()
 		}
 	case "integrateall":
-		if c := w.contiguous(); w.destInt < c {
+		if c := w.contiguous(); w.destInt < c && w.signerAwake() {
 			w.destInt = c
 			w.emit(map[string]any{"ev": "Integrate", "size": w.destInt})
 		}
@@ -426,6 +443,7 @@ func (w *World) envLocked(a string) {
 			}
 			w.mcancel = nil
 			w.passTerminal = true // losing mastership legitimately ends the pass; completion is still promised
+			w.runDirty = true
 			w.emit(map[string]any{"ev": "Master", "on": false})
 		}
 	case "regain":
@@ -442,6 +460,23 @@ func (w *World) envLocked(a string) {
 			w.Cancel()
 		}
 	}
+}
+
+// signerAwake: the signer's schedule (specification: SignerAwake).
+func (w *World) signerAwake() bool { return w.pass > w.C.Lag }
+
+// integrateOne: the signer integrates one queued leaf (the root moves by one).
+func (w *World) integrateOne() {
+	if c := w.contiguous(); w.destInt < c {
+		w.destInt++
+		w.emit(map[string]any{"ev": "Integrate", "size": w.destInt})
+	}
+}
+
+// newRunLocked: Controller.Run starts (again): it knows nothing of what an earlier run submitted.
+func (w *World) newRunLocked() {
+	w.subm = map[int64]bool{}
+	w.runPos, w.runDirty = 0, false
 }
 
 // ---------------------------------------------------------------- source log (http.RoundTripper)
@@ -498,6 +533,12 @@ func (w *World) getSTH() (int, []byte) {
 	}
 	w.sthSize, w.sthRoot = n, root
 	w.lastIdle = false
+	if w.C.Cont && !w.runDirty && w.rootSize < w.runPos && n > w.runPos {
+		// a later round of a run: the root still lags behind what the earlier rounds submitted, and there is new work
+		w.lagRounds++
+		w.lagEntries += w.runPos - w.rootSize
+		w.kinds["lag:root-behind-position:new-entries"] = true
+	}
 	if rc := w.C.rangeClass(n); rc != "" {
 		w.kinds[rc] = true
 		w.rangePasses++
@@ -517,6 +558,7 @@ func (w *World) getConsistency(first, second int) (int, []byte) {
 		return st, []byte("injected")
 	}
 	if first < 0 || second > w.srcSize+w.C.Ahead || first > second {
+		w.runDirty = true
 		w.emit(map[string]any{"ev": "Cons", "first": first, "second": second, "code": "ERR", "valid": false})
 		return 400, []byte("bad range")
 	}
@@ -534,6 +576,9 @@ func (w *World) getConsistency(first, second int) (int, []byte) {
 		}
 	}
 	w.kinds[fmt.Sprintf("cons:%v", valid)] = true
+	if !valid {
+		w.runDirty = true // the migrator must refuse: the pass, and with it the run, ends
+	}
 	w.emit(map[string]any{"ev": "Cons", "first": first, "second": second, "code": "OK", "valid": valid})
 	ps := make([]string, len(proof))
 	for i, p := range proof {
@@ -624,9 +669,22 @@ func (b *Backend) GetLatestSignedLogRoot(ctx context.Context, in *trillian.GetLa
 	}
 	// a new pass starts here
 	w.closePassLocked()
+	if w.runDirty {
+		w.newRunLocked()
+	}
 	w.pass++
 	w.calls = 0
 	w.passTerminal = false
+	// a controller that starts round after round without ever pausing never reaches a quiescent point, so the driver
+	// could never act: stop such a run (counted in virtual time, not timed; the monitors have judged every request)
+	if now := time.Now(); now.Equal(w.lastRoot) {
+		if w.spin++; w.spin > 300 && !w.canceled {
+			w.kinds["runaway:rounds-without-pause"] = true
+			w.envLocked("cancel")
+		}
+	} else {
+		w.spin, w.lastRoot = 0, now
+	}
 	w.hook()
 	w.sthSize, w.consOK, w.consBad = -1, false, false
 	if c, ok := pop(w.F.Root, strconv.Itoa(w.pass)); ok {
@@ -637,7 +695,7 @@ func (b *Backend) GetLatestSignedLogRoot(ctx context.Context, in *trillian.GetLa
 	}
 	if want, ok := w.F.RootAt[strconv.Itoa(w.pass)]; ok {
 		for c := w.contiguous(); w.destInt < want && w.destInt < c; {
-			w.envLocked("integrate")
+			w.integrateOne() // the behaviour says where the root stood: that is the signer's schedule
 		}
 	}
 	w.rootSize = w.destInt
@@ -651,10 +709,13 @@ func (b *Backend) GetLatestSignedLogRoot(ctx context.Context, in *trillian.GetLa
 	return &trillian.GetLatestSignedLogRootResponse{SignedLogRoot: &trillian.SignedLogRoot{LogRoot: raw}}, nil
 }
 
-func (w *World) setTerminal() { w.passTerminal, w.anyTerminal = true, true }
+func (w *World) setTerminal() { w.passTerminal, w.anyTerminal, w.runDirty = true, true, true }
 
 // closePassLocked: a pass is over when the next begins or the run returns; every quota reply must have been retried by then.
 func (w *World) closePassLocked() {
+	if !w.runDirty && w.sthSize > w.runPos {
+		w.runPos = w.sthSize // nothing ended the pass: it transferred everything below its STH, Run goes on from there
+	}
 	for k, n := range w.quotaOpen {
 		if n > 0 && !w.passTerminal && !w.canceled {
 			w.Rep.Violate("quota:ResourceExhausted:pass-aborted",
@@ -720,6 +781,14 @@ func (b *Backend) AddSequencedLeaves(ctx context.Context, in *trillian.AddSequen
 	}
 	rsp := &trillian.AddSequencedLeavesResponse{}
 	for i, l := range in.Leaves {
+		// NoRepeat: within one run every index is submitted (and answered OK) once, however far the root lags behind
+		if w.subm[l.LeafIndex] {
+			w.repeats++
+			w.Rep.Violate(fmt.Sprintf("repeat:index-submitted-twice-in-one-run:cont=%v", w.C.Cont),
+				fmt.Sprintf("index %d was submitted (and answered OK) a second time within one run of the Controller: pass %d, root of this pass %d, position the earlier rounds reached %d, STH %d - no pass had failed, no submission had been refused in between",
+					l.LeafIndex, w.pass, w.rootSize, w.runPos, w.sthSize), w.ctxt())
+		}
+		w.subm[l.LeafIndex] = true
 		st := &status.Status{Code: int32(codes.OK)}
 		cur := w.dest[l.LeafIndex]
 		switch {
